@@ -574,7 +574,15 @@ func TestVerif_C08(t *testing.T) {
 	}
 
 	n := 0
-	vReadNDJSON(t, "vectors.ndjson", func(line []byte) {
+	files := []string{"vectors.ndjson"}
+	for k := 2; ; k++ {
+		name := fmt.Sprintf("vectors_%d.ndjson", k)
+		if _, err := os.Stat(vIn(name)); err != nil {
+			break
+		}
+		files = append(files, name)
+	}
+	one := func(line []byte) {
 		var v c08Vec
 		if err := json.Unmarshal(line, &v); err != nil {
 			t.Fatalf("vector: %v: %s", err, line)
@@ -621,7 +629,10 @@ func TestVerif_C08(t *testing.T) {
 		default:
 			t.Fatalf("unknown vector kind %q", v.In.Kind)
 		}
-	})
+	}
+	for _, name := range files {
+		vReadNDJSON(t, name, one)
+	}
 
 	c08Random(t, run)
 }
